@@ -196,3 +196,27 @@ Proof.
       rewrite (parse_struct_some r w Hr Hw Wr Ww). apply from_structured_valid; assumption.
     + unfold epoch_equal. cbn [e_read e_write lst]. rewrite Hz. rewrite !list_eqb_refl. reflexivity.
 Qed.
+
+(* the monitor's independent statement of validity agrees with the model of Validate *)
+Lemma filter_mem_intersect : forall rs ws,
+  negb (is_nil_b (filter (fun x => mem x ws) rs)) = intersect rs ws.
+Proof.
+  induction rs as [|r rs IH]; intros ws; [reflexivity|].
+  cbn [filter intersect existsb]. unfold mem at 1.
+  assert (E : existsb (N.eqb r) ws = existsb (fun w => r =? w) ws) by reflexivity.
+  rewrite E. destruct (existsb (fun w => r =? w) ws); [reflexivity|]. cbn [orb]. apply IH.
+Qed.
+
+Lemma valid_spec_is_validate : forall e, valid_spec e = (validate e =? 0).
+Proof.
+  intros [er ew]. unfold valid_spec, validate. cbn [e_read e_write].
+  destruct (explicit_empty er) eqn:E1; [reflexivity|]. destruct (explicit_empty ew) eqn:E2; [reflexivity|].
+  cbn [negb andb orb].
+  destruct (is_zero {| e_read := er; e_write := ew |}) eqn:Z; [reflexivity|]. cbn [orb].
+  rewrite filter_mem_intersect.
+  destruct (Nat.leb_spec (length (lst er)) 10), (Nat.ltb_spec 10 (length (lst er))); try lia;
+  destruct (Nat.leb_spec (length (lst ew)) 10), (Nat.ltb_spec 10 (length (lst ew))); try lia; cbn [andb orb]; try reflexivity.
+  destruct (is_increasing (lst er)); cbn [andb negb orb]; [|reflexivity].
+  destruct (is_increasing (lst ew)); cbn [andb negb orb]; [|reflexivity].
+  destruct (intersect (lst er) (lst ew)); reflexivity.
+Qed.
